@@ -17,6 +17,7 @@ import ZepidVerif.Lemmas.Ipw
 import ZepidVerif.Lemmas.Aipw
 import ZepidVerif.Lemmas.GFormula
 import ZepidVerif.Lemmas.FitBridge
+import ZepidVerif.Lemmas.BoundUnreached
 import Mathlib.Algebra.Order.Field.Rat
 import Mathlib.Tactic.NormNum
 set_option linter.unusedSectionVars false
@@ -102,6 +103,37 @@ theorem aipw_saturated (l : List (Row F)) (S : List Nat) (hS : Strata l S) (hpos
   · refine aipw0_of_outfit l S hS hpos hobs Q hQ p (fun s => 1 - p s) (fun s hs => ?_)
     have := (hp.mem_Ioo hpos hs).2; exact (sub_pos.mpr this).ne'
 
+/-! ### A truncation bound that is not reached (round 4)
+
+`IPTW.treatment_model(bound=…)` hands the bound to `iptw_calculator`, which clips the fitted denominator
+probabilities *and* the numerator with `probability_bounds` (`Bounds.iptwRow`; the argument is parsed by
+`Bounds.estimatorBound`: falsy = no truncation, a float `b` = `[b, 1-b]`, a collection = its entries 0 and 1,
+whatever follows them).  When neither the saturated fit nor the numerator lies outside the parsed interval the
+estimate is still the standardized mean. -/
+
+/-- entries after the second of a bound collection play no part -/
+theorem bound_first_two (falsy : Bool) (lo hi : F) (rest : List (Option F)) :
+    Bounds.estimatorBound falsy (.seq (some lo :: some hi :: rest)) =
+    Bounds.estimatorBound falsy (.seq [some lo, some hi]) := rfl
+
+/-- **IPTW with a bound that is not reached**, in any accepted form `b` (parsed to `iv`): the clipped
+    probabilities are the fitted ones on every row, so the six weight formulas still give the standardized mean. -/
+theorem iptw_saturated_unreached_bound (l : List (Row F)) (S : List Nat) (hS : Strata l S) (hpos : Positivity l S)
+    (stab : Bool) (t : Tgt) (a : Bool) (n : F) (hn0 : n ≠ 0) (hn1 : n ≠ 1)
+    (p : Nat → F) (hp : PropFit l S p) (q : Nat → Bool → F) (hq : MissFit l S q)
+    (mnum : Bool → F) (hm : mnum a ≠ 0)
+    (falsy : Bool) (b : Bounds.BoundSpec F) (iv : Option (F × F)) (hb : Bounds.estimatorBound falsy b = .ok iv)
+    (hun : ∀ lo hi, iv = some (lo, hi) → (lo ≤ n ∧ n ≤ hi) ∧ ∀ s ∈ S, lo ≤ p s ∧ p s ≤ hi) :
+    hajek l (iptwOmega stab t (fun _ => (Bounds.iptwRow stab t.str iv a n n).2.1)
+                              (fun r => (Bounds.iptwRow stab t.str iv r.a n (p r.s)).1)
+                              (fun r => mnum r.a / q r.s r.a)) a = std l S t.mem a := by
+  rw [← iptw_saturated l S hS hpos stab t a n hn0 hn1 p hp q hq mnum hm]
+  have hn : Bounds.applyB iv n = n := Bounds.applyB_unreached iv n (fun lo hi e => (hun lo hi e).1)
+  have hps : ∀ r ∈ l, Bounds.applyB iv (p r.s) = p r.s := fun r hr =>
+    Bounds.applyB_unreached iv (p r.s) (fun lo hi e => (hun lo hi e).2 r.s (hS.2 r hr))
+  unfold hajek
+  congr 1 <;> (apply sumIf_congr; intro r hr; simp only [iptwOmega, Bounds.iptwRow, hn, hps r hr])
+
 /-! ### Non-vacuity: a concrete data set satisfying every hypothesis -/
 
 /-- 2 strata × 2 arms, unequal cell sizes and weights -/
@@ -126,5 +158,15 @@ example : OutFit exRows [0, 1] (fun s a => if s = 0 then (if a then 1/3 else 1) 
 
 example : std exRows [0, 1] Tgt.pop.mem true = (4 * (1/3) + 5 * 1) / 9 := by
   norm_num [std, Ntgt, cellMean, exRows, W, WY, sumIf, sumBy, inCell, inStratum, Tgt.mem]
+
+/-- a bound given as a collection of three entries: the third (which would bite) is ignored, and the interval
+    [1/10, 9/10] contains the fitted probabilities 3/4, 1/5 and the numerator 1/2 of the data set above -/
+example : Bounds.estimatorBound false (.seq [some (1/10 : ℚ), some (9/10), some (1/2)]) = .ok (some (1/10, 9/10)) ∧
+    ((1/10 : ℚ) ≤ 1/2 ∧ (1/2 : ℚ) ≤ 9/10) ∧
+    ∀ s ∈ [0, 1], (1/10 : ℚ) ≤ (fun s => if s = 0 then (3/4 : ℚ) else 1/5) s ∧
+      (fun s => if s = 0 then (3/4 : ℚ) else 1/5) s ≤ 9/10 := by
+  refine ⟨by norm_num [Bounds.estimatorBound, Bounds.parseBound], by norm_num, ?_⟩
+  intro s hs; simp only [List.mem_cons, List.not_mem_nil, or_false] at hs
+  rcases hs with rfl | rfl <;> norm_num
 
 end ZV.P01
